@@ -85,7 +85,7 @@ func sameVal(a, b ssa.Value) bool {
 }
 
 func ruleGRDidmap(w *World, r *Report) {
-	r.Doc("GRD-idmap", "the external↔internal id maps stay inverse on live nodes: a forward store externalToInternalID[k]=v is paired with the reverse store internalToExternalID[v]=k; a forward entry found through the reverse map is deleted only on the edge where it still points at that internal id; a node taken from an iteration is registered only on its not-Deleted edge (SSA value identity and guard paths, no expression text)", 5)
+	r.Doc("GRD-idmap", "the external↔internal id maps stay inverse on live nodes: a forward store externalToInternalID[k]=v is paired with the reverse store internalToExternalID[v]=k; a forward entry found through the reverse map is deleted only on the edge where it still points at that internal id; a node taken from an iteration is registered only on its not-Deleted edge (SSA value identity and guard paths, no expression text)", 4)
 	n := 0
 	for _, fn := range w.pkgSSAFuncs("pkg/core/hnsw") {
 		if fn.Parent() != nil {
